@@ -3219,6 +3219,20 @@ EbErrorType svt_svt_enc_init_parameter(
     config_ptr->superres_kf_denom = 8;
     config_ptr->superres_qthres = 43; // random threshold, change
 
+    // Fields that previously kept whatever the caller's memory held
+    config_ptr->render_width = 0;
+    config_ptr->render_height = 0;
+    config_ptr->is_16bit_pipeline = EB_FALSE;
+    config_ptr->rc_twopass_stats_in.buf = NULL;
+    config_ptr->rc_twopass_stats_in.sz = 0;
+    config_ptr->rc_firstpass_stats_out = EB_FALSE;
+    config_ptr->enable_qp_scaling_flag = 0;
+    config_ptr->enable_denoise_flag = EB_FALSE;
+    config_ptr->in_loop_me_flag = EB_FALSE;
+    config_ptr->vbv_bufsize = 0;
+    memset(config_ptr->pred_struct, 0, sizeof(config_ptr->pred_struct));
+    config_ptr->manual_pred_struct_entry_num = 0;
+
     return return_error;
 }
 //#define DEBUG_BUFFERS
